@@ -7,6 +7,7 @@ itself tied to the Lean reference by C08; in the exact regime also directly the 
 across partitions, the requested partition count, and the Lean packing model `Pack.pack` run with the cut points Dask
 chose (rows = sorted rows cut at those points)."""
 import json
+import os
 import math
 
 import numpy as np
@@ -16,6 +17,7 @@ from . import common, geo
 from .common import Check, drive, tok, untok
 
 PROP = "C09"
+_TMP = []
 
 
 def row_key(row, cols, geom_cols):
@@ -30,7 +32,7 @@ def row_key(row, cols, geom_cols):
     return json.dumps(d, sort_keys=True)
 
 
-def run_case(chk, r, kind, els, pts, active, in_parts, npart, p, tag, coalesce=False):
+def run_case(chk, r, kind, els, pts, active, in_parts, npart, p, tag, coalesce=False, pruned_read=False):
     import dask
     import dask.dataframe as dd
     from spatialpandas import GeoDataFrame
@@ -38,10 +40,35 @@ def run_case(chk, r, kind, els, pts, active, in_parts, npart, p, tag, coalesce=F
     df = GeoDataFrame({"v": list(range(n)), "s": [f"t{i % 3}" for i in range(n)], "geometry": geo.make_array(kind, els, "float64"),
                        "anchor": geo.make_array("point", pts, "float64")}).set_geometry(active)
     rep = dict(api="pack_partitions", kind=kind, elements=els, points=pts, active=active, input_partitions=in_parts, npartitions=npart, p=p,
-               coalesced=coalesce)
+               coalesced=coalesce, pruned_read=pruned_read)
     ddf = dd.from_pandas(df, npartitions=in_parts)
     if coalesce and in_parts > 1:
         ddf = ddf.repartition(npartitions=max(1, in_parts // 2))
+    if pruned_read:
+        # the frame to pack is what read_parquet_dask(bounds=...) loads of a larger dataset: a partition far away is on disk but pruned;
+        # the frame's own total bounds (not the dataset's) define the curve
+        import shutil
+        import tempfile
+        from spatialpandas.io import read_parquet_dask
+        far = GeoDataFrame({"v": [900, 901], "s": ["far", "far"], "geometry": geo.make_array(kind, [els[0], els[0]], "float64"),
+                            "anchor": geo.make_array("point", [[5000, 5000], [5008, 5008]], "float64")}).set_geometry(active)
+        if kind == "point":
+            far["geometry"] = geo.make_array("point", [[5000, 5000], [5008, 5008]], "float64")
+        tmpd = tempfile.mkdtemp(prefix="spv_c09_")
+        _TMP.append(tmpd)               # the loaded frame reads from it lazily: removed at the end of run_cases
+        try:
+            path = os.path.join(tmpd, "ds.parq")
+            big = dd.concat([ddf, dd.from_pandas(far, npartitions=1)])
+            big.to_parquet(path)
+            rd = read_parquet_dask(path, geometry=active, bounds=(-100, -100, 100, 100) if pts[0] is None or abs(pts[0][0]) < 1000 else
+                                   (2 ** 20 - 100, -(2 ** 21) - 100, 2 ** 20 + 100, -(2 ** 21) + 100))
+            loaded = rd.compute()
+            if sorted(loaded["v"]) != list(range(n)) or active != "anchor":
+                return None            # the box did not separate the two groups (shapes near the far partition): not this scenario
+            df = GeoDataFrame(loaded).set_geometry(active)
+            ddf = rd
+        finally:
+            pass
     try:
         packed = ddf.pack_partitions(npartitions=npart, p=p)
         parts = list(dask.compute(*packed.to_delayed(), scheduler="synchronous"))
@@ -107,6 +134,15 @@ def run_case(chk, r, kind, els, pts, active, in_parts, npart, p, tag, coalesce=F
 
 
 def run_cases(chk, tier):
+    import shutil
+    try:
+        _run_cases(chk, tier)
+    finally:
+        while _TMP:
+            shutil.rmtree(_TMP.pop(), ignore_errors=True)
+
+
+def _run_cases(chk, tier):
     import dask
     from .c01 import random_family
     dask.config.set(scheduler="synchronous")
@@ -142,6 +178,8 @@ def run_cases(chk, tier):
             out = run_case(chk, r, kind, els, pts, active, in_parts, npart, p, "frame", coalesce=(k % 3 == 0 and in_parts >= 2))
             if out is not None:
                 res.append(out)
+        if active == "anchor" and all(q is not None for q in pts) and k % 2 == 1:
+            run_case(chk, r, kind, els, pts, active, 2, npart, p, "pruned-read", pruned_read=True)
         if len(res) >= 2 and any(x != res[0] for x in res[1:]):
             chk.violation("pack_partitions/result-depends-on-input-partitioning", dict(api="pack_partitions", kind=kind, elements=els, points=pts,
                                                                                      active=active, npartitions=npart, p=p), size=n)
